@@ -186,7 +186,7 @@ static std::vector<Cfg> configs(bool thorough) {
                     int size = 8 * n + tail;
                     if (proto == 6 && size < 20) continue;
                     // second-datagram variants: none / other id / other source / reversed direction / same everything but other protocol
-                    for (int var = 0; var < 4; ++var) {
+                    for (int var = 0; var < 5; ++var) {
                         if (!thorough && (pi != 0 && var > 1)) continue;          // quick: full variant set for UDP only
                         for (int eth = 0; eth < 2; ++eth) {
                             if (!thorough && eth && (var != 0 || tail)) continue;
@@ -199,8 +199,8 @@ static std::vector<Cfg> configs(bool thorough) {
                                 if (var == 1) d2.id = 0x1235;
                                 if (var == 2) d2.src = C_;
                                 if (var == 3) { d2.src = B_; d2.dst = A_; }
-                                if (var == 4) { d2.proto = proto == 17 ? 0xFD : 17; }
-                                int sz2 = 8 * 2 + 3;
+                                if (var == 4) { d2.dst = C_; }          // same id and source, other destination
+                                                                int sz2 = 8 * 2 + 3;
                                 d2.payload = upper_payload(d2.proto, d2.src, d2.dst, d2.proto == 6 ? 27 : sz2, 0x80);
                                 d2.cuts = {0, 8, (int)d2.payload.size()};
                                 if (var == 3 || var == 4) {   // same shape as d1 so that byte counts can mask holes
